@@ -74,12 +74,17 @@ Definition cast (t : ty) (text : option str) : outcome val :=
 Definition env_leaf_var (prefix : str) (l : leaf) : outcome str :=
   tags <- env_final_tags l ;; env_var prefix tags.
 
-Definition env_value (prefix : str) (pfs : fields) (env : list (str * str)) : outcome (list val) :=
-  let afs := alias_fields env_alias_keys pfs in
-  ls <- flatten env_cfg afs ;;
+(* Translate + the lookup loop's name computation: the flattened leaves, each
+   with the variable env.go looks up for it *)
+Definition env_plan (prefix : str) (pfs : fields) : outcome (list (leaf * str)) :=
+  ls <- flatten env_cfg (alias_fields env_alias_keys pfs) ;;
   tags <- omapM env_final_tags ls ;;
   if has_dup (map lf_name ls) then Panic 4 else
   vars <- omapM (env_var prefix) tags ;;
-  vals <- omapM (fun lv => cast (lf_ty (fst lv)) (lookup_env env (snd lv))) (combine ls vars) ;;
-  vs <- populate afs vals ;;
+  Ok (combine ls vars).
+
+Definition env_value (prefix : str) (pfs : fields) (env : list (str * str)) : outcome (list val) :=
+  plan <- env_plan prefix pfs ;;
+  vals <- omapM (fun lv => cast (lf_ty (fst lv)) (lookup_env env (snd lv))) plan ;;
+  vs <- populate (alias_fields env_alias_keys pfs) vals ;;
   unalias_fields env_alias_keys pfs vs.
